@@ -72,15 +72,26 @@ def translate(path):
         raise TranslationError("duplicate tagger name")
     labels = {}
     terms = []
+    aims, start_deact = [], []
     for name, cls in taggers:
         sec = camel(name)
         if not cp.has_section(sec):
             raise TranslationError("no section for tagger " + name)
         if cls not in TCLASS:
             raise TranslationError("unknown tagger class " + cls)
-        eh = alias(cp.get(sec, "event_handler"))[1]
+        ehname, eh = alias(cp.get(sec, "event_handler"))
         if eh not in HKIND:
             raise TranslationError("unknown event handler class " + eh)
+        if HKIND[eh] == "KSwitcher":
+            # the mode of motion this tagger's event switches to (Model/Wiring.v, mode_fun_ok)
+            aim = cp.get(camel(ehname), "aim_mode", fallback=None)
+            if aim is None or aim.strip() not in ("leaf_unit_active", "root_unit_active"):
+                raise TranslationError("mode switcher %s without a known aim_mode" % ehname)
+            aims.append("(Some %d)" % (0 if aim.strip() == "leaf_unit_active" else 1))
+        else:
+            aims.append("None")
+        if HKIND[eh] == "KStart":
+            start_deact = split_list(cp.get(sec, "deactivate", fallback=""))
         lab = cp.get(sec, "internal_state_label", fallback=None)
         if lab is not None:
             labels.setdefault(lab.strip(), len(labels))
@@ -100,6 +111,12 @@ def translate(path):
                      "g_activates := %s; g_deactivates := %s |}" % (
                          TCLASS[cls], HKIND[eh], "None" if lab is None else "(Some %d)" % labels[lab.strip()],
                          ids("create"), ids("trash"), ids("activate"), ids("deactivate")))
+    # the mode after the start of the run: the one the switcher(s) deactivated by the start-of-run tagger aim at
+    m0s = {aims[names.index(x)] for x in start_deact if x in names and aims[names.index(x)] != "None"}
+    if len(m0s) > 1 or (not m0s and any(a != "None" for a in aims)):
+        raise TranslationError("cannot determine the mode of motion after the start of the run")
+    m0 = int(m0s.pop()[6:-1]) if m0s else 0
+    translate.modes = (C.coq_list(aims), m0)
     return C.coq_list(terms), names
 
 
@@ -119,9 +136,12 @@ def static_obligations(ctx):
             errs.append("translation of %s failed: %s" % (rel, e))
             continue
         lines.append("Definition w%d : swiring := %s." % (i, term))
+        lines.append("Definition aims%d : list (option nat) := %s." % (i, translate.modes[0]))
+        lines.append("Definition ok%d : bool := wiring_static_ok w%d && mode_fun_ok w%d aims%d %d." % (
+            i, i, i, i, translate.modes[1]))
         names.append((i, rel))
     lines.append('Definition result := ("RESULT"%string, ' + C.coq_list(
-        ["(%d, wiring_static_ok w%d)" % (i, i) for i, _ in names]) + ").")
+        ["(%d, ok%d)" % (i, i) for i, _ in names]) + ").")
     lines.append("From Coq Require Import String.")
     lines.append("Eval vm_compute in result.")
     src = "\n".join(lines).replace('("RESULT"%string', '("RESULT"%string')
@@ -131,7 +151,7 @@ def static_obligations(ctx):
     fn = os.path.join(ctx.gen, "Wiring_all.v")
     open(fn, "w").write(src + "\n")
     ctx.obligations += len(files)
-    ctx.checker_cmds.append("coqc -Q coq JF <gen>/Wiring_all.v  (wiring_static_ok of %d translated .ini files)" % len(files))
+    ctx.checker_cmds.append("coqc -Q coq JF <gen>/Wiring_all.v  (wiring_static_ok && mode_fun_ok of %d translated .ini files)" % len(files))
     ok, out = C.coqc(fn, ctx.gen)
     if not ok:
         return errs + ["Wiring_all.v does not compile: " + out[-500:]]
@@ -141,7 +161,8 @@ def static_obligations(ctx):
         if res.get(i):
             ctx.discharged += 1
         else:
-            errs.append("wiring_static_ok fails for %s (create/trash/activate/deactivate lists inconsistent with the "
-                        "footprints of its taggers and event handlers)" % rel)
+            errs.append("wiring_static_ok / mode_fun_ok fails for %s (create/trash/activate/deactivate lists inconsistent "
+                        "with the footprints of its taggers and event handlers, or the activated taggers are not a "
+                        "function of the mode of motion)" % rel)
     ctx.notes.append("static wiring: %d configurations translated, %d ok" % (len(names), sum(res.values())))
     return errs
